@@ -320,4 +320,4 @@ contract("gherkin.pickles.compiler.Compiler.compile",
                  lambda k: same_steps(pickles[k], feature_flat(gherkin_document["feature"], _i, gherkin_document["uri"])[0][k])),
                  serves=["C07", "C09", "C10"]),
              clause("ids-advance", lambda self: self.id_generator._id_counter >= old(self.id_generator._id_counter), serves=["C11"]),
-         ], modifies=["self.id_generator"])})
+         ], modifies=["self.id_generator", "pickles"])})
